@@ -13,7 +13,8 @@ From Coq Require Import Reals QArith ZArith List Bool.
 From Bignums Require Import BigZ.
 From Coquelicot Require Import Coquelicot.
 From SpdVerif Require Import Base.NumOps Gen.Integration Model.Quadrature.
-From SpdVerif Require Import Proofs.C12_base Proofs.C12_simpson Proofs.C12_rule Proofs.C12_simpson2d Proofs.C12_adaptive Proofs.C12_cert Proofs.C12_expi Proofs.C12_alias Proofs.C12_gl_expi Proofs.C12_gl_cert Proofs.C12_expi2d.
+From SpdVerif Require Import Proofs.C12_base Proofs.C12_simpson Proofs.C12_rule Proofs.C12_simpson2d Proofs.C12_adaptive Proofs.C12_cert Proofs.C12_expi Proofs.C12_alias Proofs.C12_gl_expi Proofs.C12_gl_cert Proofs.C12_expi2d Proofs.C12_float.
+From SpdVerif Require Import Model.C12_FloatOps.
 Import ListNotations.
 Local Open Scope R_scope.
 
@@ -63,6 +64,28 @@ Theorem C12_expi_integral : forall k a b : R, k <> 0 ->
   is_RInt (fun x => fst (expi k x)) a b (fst (expi_int k a b)) /\
   is_RInt (fun x => snd (expi k x)) a b (snd (expi_int k a b)).
 Proof. exact expi_int_is_RInt. Qed.
+
+(* ---- rounding analysis of the translated `simpson` (its sequential evaluation order) in binary64, absent overflow and
+   underflow: [Fops rnd64] instantiates the SAME generated code with every operation followed by round-to-nearest-even at
+   precision 53 (Flocq).  With n the normalised division count, x_i the rounded nodes the code evaluates the integrand at,
+   each component of the result is within ((1+u)^(n+6) - 1) |b-a|/(3n) sum_i w_i |f(x_i)| of the exact rule value on those
+   samples; (1+u)^k - 1 <= k u/(1 - k u), and <= 1.5e-14 on the whole sequential branch (n < 128). *)
+Theorem C12_simpson_binary64 : forall (func : R -> C) (a b : R) divs, simpson_accepts divs = true ->
+  let n := simpson_norm divs in
+  let idx := zrange_incl 0 n in
+  let s := (b - a) / (3 * IZR n) in
+  let x := node_hat rnd64 a b n in
+  Rabs (fst (simpson (Fops rnd64) func a b divs) - s * rsum (map (fun i => wR i n * fst (func (x i))) idx))
+    <= G u64 (Z.to_nat n + 6) * (Rabs s * rsum (map (fun i => wR i n * Rabs (fst (func (x i)))) idx)) /\
+  Rabs (snd (simpson (Fops rnd64) func a b divs) - s * rsum (map (fun i => wR i n * snd (func (x i))) idx))
+    <= G u64 (Z.to_nat n + 6) * (Rabs s * rsum (map (fun i => wR i n * Rabs (snd (func (x i)))) idx)).
+Proof. exact simpson_binary64. Qed.
+
+Theorem C12_float_constants :
+  u64 = / 9007199254740992 /\
+  (forall k : nat, INR k * u64 < 1 -> G u64 k <= INR k * u64 / (1 - INR k * u64)) /\
+  (forall n : Z, (n < 128)%Z -> G u64 (Z.to_nat n + 6) <= 1.5e-14).
+Proof. exact (conj u64_value (conj G64_gamma G64_sequential)). Qed.
 
 (* ---- composite Simpson, 2-D *)
 Theorem C12_simpson2d_is_tensor : forall (f : R -> R -> C) (ax bx ay by_ : R) divs, (0 < simpson2d_norm divs)%Z ->
@@ -384,6 +407,8 @@ Print Assumptions C12_simpson_exact.
 Print Assumptions C12_simpson_reverse.
 Print Assumptions C12_simpson_linear.
 Print Assumptions C12_simpson_calls.
+Print Assumptions C12_simpson_binary64.
+Print Assumptions C12_float_constants.
 Print Assumptions C12_simpson_expi_bound.
 Print Assumptions C12_expi_integral.
 Print Assumptions C12_simpson2d_is_tensor.
